@@ -173,11 +173,14 @@ theorem curLen_alloc (s : BState) (r : IdRule) : curLen (allocId s r).1 = curLen
   simp [curLen, a, b, c]
 
 
-def InRange (s : BState) : Call → Prop
+def InRange (B : BTables) (s : BState) : Call → Prop
   | .blockInst ip _ _ _ _ => ∀ n, curLen s = some n → ipOk ip n
   | .terminator ip _ _ => ∀ n, curLen s = some n → ipOk ip n
   | .insertRaw ip _ => ∀ n, curLen s = some n → ipOk ip n
   | .insertTGV ip _ => ipOk ip s.module.typesGlobalValues.length
+  -- the search of `select_function_by_name` indexes `operands[0]`/`operands[1]` of every `OpName` and unwraps every
+  -- function's definition id: in range = well-formed names and definitions (what the Builder's own methods produce)
+  | .selectByName nm => ∀ site, findByName B s.module.functions nm s.module.debugNames ≠ .panic site
   | _ => True
 
 theorem ok_id (B : BTables) (s : BState) (h : SelValid s) : StepOk s (s.step B .id) :=
@@ -403,6 +406,22 @@ theorem ok_selectFunction (B : BTables) (s : BState) (h : SelValid s) (i : Optio
       · intro b hb; cases hb
     · simp only [hlt, if_false]; exact ok_same s _ h rfl
 
+theorem ok_selectByName (B : BTables) (s : BState) (h : SelValid s) (nm : List Nat)
+    (hr : ∀ site, findByName B s.module.functions nm s.module.debugNames ≠ .panic site) :
+    StepOk s (s.step B (.selectByName nm)) := by
+  simp only [BState.step]
+  cases hf : findByName B s.module.functions nm s.module.debugNames with
+  | none => exact ok_same s _ h rfl
+  | panic site => exact absurd hf (hr site)
+  | idx i =>
+    dsimp only
+    by_cases hlt : i < s.module.functions.length
+    · simp only [hlt, if_true]
+      refine ⟨rfl, ⟨?_, ?_⟩, fun hh => by cases hh⟩
+      · intro f hf'; simp only [Option.some.injEq] at hf'; subst hf'; exact hlt
+      · intro b hb; cases hb
+    · simp only [hlt, if_false]; exact ok_same s _ h rfl
+
 theorem ok_selectBlock (B : BTables) (s : BState) (h : SelValid s) (i : Option Nat) :
     StepOk s (s.step B (.selectBlock i)) := by
   cases i with
@@ -447,7 +466,7 @@ theorem ok_popInstruction (B : BTables) (s : BState) (h : SelValid s) : StepOk s
 
 /-- **C12 (one call).** Under the invariant and in-range offsets: the call does not panic, the invariant is preserved,
 and a call that returns an error leaves the instructions of the module exactly as they were. -/
-theorem step_spec (B : BTables) (s : BState) (c : Call) (h : SelValid s) (hr : InRange s c) : StepOk s (s.step B c) := by
+theorem step_spec (B : BTables) (s : BState) (c : Call) (h : SelValid s) (hr : InRange B s c) : StepOk s (s.step B c) := by
   cases c with
   | id => exact ok_id B s h
   | beginFunction rt fid c ft => exact ok_beginFunction B s h rt fid c ft
@@ -466,6 +485,7 @@ theorem step_spec (B : BTables) (s : BState) (c : Call) (h : SelValid s) (hr : I
   | setVersion a b => exact ok_setVersion B s h a b
   | selectFunction i => exact ok_selectFunction B s h i
   | selectBlock i => exact ok_selectBlock B s h i
+  | selectByName nm => exact ok_selectByName B s h nm hr
   | popInstruction => exact ok_popInstruction B s h
 
 
@@ -543,7 +563,7 @@ theorem C12_conditions (B : BTables) (s : BState) (h : SelValid s) :
 /-- every call of the sequence has in-range offsets at the state it is made in -/
 def AllInRange (B : BTables) : BState → List Call → Prop
   | _, [] => True
-  | s, c :: cs => InRange s c ∧ AllInRange B (s.step B c).1 cs
+  | s, c :: cs => InRange B s c ∧ AllInRange B (s.step B c).1 cs
 
 /-- **C12 (all histories).** No call of any sequence (with in-range offsets) panics and the selection designates an
 existing function and block, or nothing, after every call. -/
